@@ -7,7 +7,7 @@
    Closed under the global context. *)
 From Coq Require Import Qround Sorted Lqa.
 From MM Require Import Base.Num Model.Ticks Proofs.Ticks Proofs.TicksLinear Check.C17 Proofs.CheckBase
-  Proofs.CheckC17Base Proofs.CheckC17Parse Proofs.CheckC17Lin Proofs.CheckC17Log Proofs.CheckC17Win Proofs.CheckC17WinLog Proofs.CheckC17WinCase.
+  Proofs.CheckC17Base Proofs.CheckC17Parse Proofs.CheckC17Lin Proofs.CheckC17Log Proofs.CheckC17Win Proofs.CheckC17WinLog Proofs.CheckC17WinCase Proofs.CheckC17WinCaseLog.
 Local Open Scope Z_scope.
 
 (* a Log scale as NewLog returns it *)
@@ -379,12 +379,20 @@ Lemma borderline_window :
      (forall l, lin_amb_level base eb a b false l = false) ->
      lin_ticks_adm o base eb a b tolv (lin_search o base eb a b false) major None = true ->
      exists l, lin_search o base eb a b false = FL_ok l /\ (1 <= o_max o)%Z /\
-       close_list tolv (lin_ticks_at base eb a b false l) major = true).
+       close_list tolv (lin_ticks_at base eb a b false l) major = true) /\
+  (* a whole Log case: no borderline verdict without an undecided slack decision or minor ticks *)
+  (forall c t p d, judge_log c = verdict 1 t p d ->
+     exists ao bo, so_nmin (sc_ob c) = XFin ao /\ so_nmax (sc_ob c) = XFin bo /\
+     let base := sc_base c in let mn := sc_mn c in let mx := sc_mx c in let ob := sc_ob c in
+     ~ (le_amb (log_e base mn mx) = false /\ le_amb (log_e base ao bo) = false /\
+        (forall l, log_search (sc_o c) (log_e base mn mx) false = FL_ok l -> (1 <= l)%Z) /\
+        (forall lv, In lv (so_levels ob) -> (0 <= lv_level lv)%Z) /\
+        (forall l, log_search (so_no ob) (log_e base ao bo) false = FL_ok l -> (0 <= l)%Z))).
 Proof.
   split; [exact lin_level_adm_window|]. split; [exact lin_levels_borderline_in_window|].
   split; [exact lin_ticks_adm_window|]. split; [exact lin_nice_adm_window|]. split; [exact near_round_window|].
   split; [intros q H; split; [now apply floor_adm_window | now apply ceil_adm_window]|].
   split; [exact log_nice_A_window|]. split; [exact log_level_adm_window|]. split; [exact log_ticks_A_window|].
-  split; [exact linear_borderline_needs_window | exact lin_ticks_adm_window_none].
+  split; [exact linear_borderline_needs_window|]. split; [exact lin_ticks_adm_window_none | exact log_borderline_needs_window].
 Qed.
 End Statements.
